@@ -160,6 +160,26 @@ static void check_string(const int *idx, int n)
 		free(d);
 		free(c);
 	}
+	/* the matcher steps through the line character by character: whatever it reports for a bracket, a
+	 * negated bracket or a dot starts and ends on a character boundary */
+	{
+		static struct rset *rs[4];
+		static char *pats[4] = {"[^\xc3\xa9]", "[^a]\xe2\x82\xac", ".\xcc\x81", "[\xe2\x82\xac-\xe2\x82\xad]"};
+		int pi, g[4], k;
+		for (pi = 0; pi < 4; pi++) {
+			int sb = 0, se = 0;
+			if (!rs[pi])
+				rs[pi] = rset_make(1, &pats[pi], 0);
+			if (!rs[pi] || rset_find(rs[pi], s, 1, g, 0) < 0)
+				continue;
+			for (k = 0; k <= n; k++) {
+				sb |= st[k] == g[0];
+				se |= st[k] == g[1];
+			}
+			if (!sb || !se || g[1] < g[0])
+				BAD("pattern %s matches bytes %d..%d, not a run of whole characters", pats[pi], g[0], g[1]);
+		}
+	}
 #undef BAD
 }
 
